@@ -256,6 +256,26 @@ def w10_migration_loses_events(tmp):
     return None
 
 
+def w19_migration_tail_uncommitted(tmp):
+    import sqlite3
+    from aw_datastore.storages import PeeweeStorage, SqliteStorage
+    pw = PeeweeStorage(testing=True)
+    pw.create_bucket("b", "t", "c", "h", T0.isoformat(), "nm", {"k": "v"})
+    pw.insert_many("b", [_ev(i, 1, {"i": i}) for i in range(5)])
+    pw.db.close()
+    s = SqliteStorage(testing=True)
+    try:
+        path = s.conn.execute("PRAGMA database_list").fetchone()[2]
+        c2 = sqlite3.connect(path)
+        n = c2.execute("SELECT count(*) FROM events").fetchone()[0]
+        c2.close()
+        if n != 5:
+            return f"after the migration returned, {n} of 5 migrated events are committed (a crash now loses the rest for good)"
+    finally:
+        s.conn.close()
+    return None
+
+
 def w11_union_no_overlap(tmp):
     from aw_transform.union_no_overlap import union_no_overlap
     a, b = [_ev(0, 6, {"l": 1})], [_ev(0, 2, {"l": 2}), _ev(4, 2, {"l": 2})]
